@@ -178,15 +178,199 @@ def run_scalars(v, tier, fix, acc):
                                  value_out=ep.text_of(t['eout'][at - 1].get('v', [])) if 0 < at <= len(t['eout']) else None))
 
 
+
+# ------------------------------------------------------------------ part B: Emitter.tla
+EBASE = dict(Fix=[], Variant='"python"', Mode='"grammar"', MaxEvents=7, MaxDocs=1, Canons=[False], Bests=[2], Widths=[80],
+             Unis=[False], LBs=['n'], Vs=['word', 'empty'], Ss=['none'], SAs=[''], STs=[''], SIs=['tf'], CAs=[''], CTs=[''],
+             CIs=[True], FSs=[False, True], AAs=['a1'], DXs=[False], DVs=[''], DTs=[''], EXs=[False])
+ECONF = {
+    'struct': dict(EBASE, MaxEvents=8, Vs=['word', 'empty', 'multiline']),
+    'attrs':  dict(EBASE, MaxEvents=6, Vs=['word', 'empty', 'lead'], SAs=['', 'a1', 'bad'], FSs=[False],
+                   STs=['', '!', 'local', 'core', 'uri', 'hdl', 'hu', 'empty'], SIs=['tf', 'ft', 'ff', 'tt'], CTs=['', 'local'],
+                   CIs=[True, False], DTs=['', 'h1', 'hu'], DVs=['', '1.1']),
+    'opts':   dict(EBASE, MaxEvents=7, Vs=['word', 'long', 'nonascii'], Ss=['none', 'double'], Canons=[True, False],
+                   Widths=[5, 80], Bests=[2, 4], Unis=[True, False], LBs=['n', 'rn'], CAs=['', 'a1']),
+    'any':    dict(EBASE, Mode='"any"', MaxEvents=5, MaxDocs=5, SIs=['tf', 'ff'], AAs=['a1', ''], DVs=['', '2.0'], FSs=[False],
+                   DTs=['', 'badh']),
+    # thorough
+    'struct+': dict(EBASE, MaxEvents=10, Vs=['word', 'empty', 'multiline'], MaxDocs=2),
+    'styles+': dict(EBASE, MaxEvents=8, Vs=['word', 'empty', 'words', 'multiline', 'lead', 'trail', 'ind', 'nonascii', 'nl', 'nlnl',
+                                            'docsep'], Ss=['none', 'single', 'double', 'literal', 'folded'], FSs=[False, True]),
+    'attrs+':  dict(EBASE, MaxEvents=7, Vs=['word', 'empty', 'lead'], SAs=['', 'a1', 'bad', 'empty'], FSs=[False, True],
+                    STs=['', '!', 'local', 'core', 'uri', 'hdl', 'hu', 'empty'], SIs=['tf', 'ft', 'ff', 'tt'], CTs=['', 'local', 'empty'],
+                    CAs=['', 'a2'], CIs=[True, False], DTs=['', 'h1', 'hu', 'badh', 'nop'], DVs=['', '1.1', '1.2', '2.0']),
+    'opts+':   dict(EBASE, MaxEvents=8, Vs=['word', 'long', 'nonascii', 'multiline'], Ss=['none', 'double', 'folded'],
+                    Canons=[True, False], Widths=[5, 80], Bests=[2, 4], Unis=[True, False], LBs=['n', 'r', 'rn'], CAs=['', 'a1']),
+    'any+':    dict(EBASE, Mode='"any"', MaxEvents=6, MaxDocs=6, SIs=['tf', 'ff'], AAs=['a1', ''], DVs=['', '2.0'],
+                    DTs=['', 'badh'], CIs=[True, False], SAs=['', 'empty']),
+}
+ETIERS = {'quick': ['struct', 'attrs', 'opts', 'any'], 'thorough': ['struct+', 'styles+', 'attrs+', 'opts+', 'any+']}
+KEEP = r'outcome \|-> "(done|EmitterError|Crash)"'
+METHODS = {"stream_start", "nothing", "first_document_start", "document_start", "document_end", "document_root",
+           "first_flow_sequence_item", "flow_sequence_item", "first_flow_mapping_key", "flow_mapping_key",
+           "flow_mapping_simple_value", "flow_mapping_value", "first_block_sequence_item", "block_sequence_item",
+           "first_block_mapping_key", "block_mapping_key", "block_mapping_simple_value", "block_mapping_value",
+           "expect_node", "expect_alias", "expect_scalar", "expect_flow_sequence", "expect_flow_mapping",
+           "expect_block_sequence", "expect_block_mapping"}
+
+
+def setlist(x):
+    return list(x[1]) if isinstance(x, tuple) else list(x or [])
+
+
+def emit_work(states, extra):
+    yaml = use_repo()
+    rnd = random.Random(extra['seed'])
+    out = {'pairs': 0, 'traces': [], 'meta': [], 'same': 0, 'drift': [], 'ndrift': 0, 'outcomes': {}, 'trail': set(),
+           'sites': {}, 'samples': [], 'cxs': set(), 'finals': 0}
+    for st in states:
+        m, hist = st['m'], st['hist']
+        out['trail'].update(setlist(m['trail']))
+        final = m['outcome'] == 'done' and not m['events']
+        if not final and m['outcome'] not in ('EmitterError', 'Crash'):
+            continue
+        out['finals'] += 1
+        out['outcomes'][m['outcome']] = out['outcomes'].get(m['outcome'], 0) + 1
+        diag = sorted(setlist(m['diag']))
+        for d in diag:
+            out['sites'][d] = out['sites'].get(d, 0) + 1
+        for it in m['items']:
+            if it['t'] == 'scalar':
+                c = it['cx']
+                out['cxs'].add((c['style'], c['flow'], c['sk'], c['root'], c['ws0'], c['c0'], c['indent']))
+        wf = int(ep.attr_ok(hist))
+        opts = ep.model_opts(m['opt'])
+        for vi in (0, 1):
+            if vi and (not final or rnd.random() > extra['alt']):
+                continue
+            r_ = None if vi == 0 else rnd
+            evs = [ep.model_event(yaml, e, r_) for e in hist]
+            if vi:      # one document must use one representative per anchor / tag-handle class: rebuild consistently
+                state = rnd.getstate()
+                evs = []
+                for e in hist:
+                    rnd.setstate(state)
+                    evs.append(ep.model_event(yaml, e, rnd))
+            ein = [ep.project(e) for e in evs]
+            for em, D, pa, L in PAIRS:
+                if vi and (em, pa) not in (('python', 'python'), ('libyaml', 'libyaml')):
+                    continue
+                if not final and pa != em:
+                    continue
+                o = ep.emit_parse(yaml, evs, getattr(yaml, D), getattr(yaml, L), opts, parse=bool(wf))
+                out['pairs'] += 1
+                same = wf and o['outcome'] == 'ok' and identical(ein, o['eout'])
+                if same:
+                    out['same'] += 1
+                if em == 'libyaml' and o['outcome'] == 'exception' and o['err'].startswith('TypeError: anchor must be a string'):
+                    continue            # AliasEvent(anchor=None): an ill-typed argument for the C binding (assumption)
+                if not same or rnd.random() < extra['sample']:
+                    out['traces'].append({'wf': wf, 'outcome': o['outcome'], 'ein': ein, 'eout': o['eout']})
+                    site = (diag or ['unexplained']) if em == 'python' else \
+                        (['empty-document-not-forced-explicit'] if m['lysite'] or diag == ['empty-document-not-forced-explicit'] else ['unexplained'])
+                    out['meta'].append({'emitter': em, 'parser': pa, 'opts': opts, 'text': o['text'], 'err': o['err'],
+                                        'events': [ep.ev_repr(e) for e in evs], 'site': '+'.join(site),
+                                        'styles': o.get('styles', [])})
+                if em == 'python' and pa == 'python' and vi == 0:       # L comparison: drift only
+                    exp = {'done': 'ok', 'EmitterError': 'EmitterError', 'Crash': 'exception'}[m['outcome']]
+                    why = None
+                    if final:
+                        pred = st['pred']
+                        if o['outcome'] in ('EmitterError', 'exception'):
+                            why = 'model accepts, real %s %s' % (o['outcome'], o['err'])
+                        elif o['text'] != ep.text_of(m['w']['out']):
+                            why = 'text: model %r real %r' % (ep.text_of(m['w']['out']), o['text'])
+                        elif wf and (o['outcome'] == 'ok') != bool(pred['ok']):
+                            why = 'reader model %s (%s), real parse %s %s' % (pred['ok'], pred['why'], o['outcome'], o['err'])
+                        elif wf and o['outcome'] == 'ok':
+                            pe = [(e['k'], list(e['a']), list(e['v']), e['p']) for e in pred['evs']]
+                            re_ = [(e['k'], e.get('a', []), e.get('v', []), e.get('p', 0)) for e in o['eout']]
+                            if pe != re_:
+                                why = 'events: reader model %s real %s' % (pe, re_)
+                    elif o['outcome'] != exp:
+                        why = 'outcome: model %s (%s), real %s %s' % (m['outcome'], m['why'], o['outcome'], o['err'])
+                    if why:
+                        out['ndrift'] += 1
+                        if len(out['drift']) < 2:
+                            out['drift'].append({'events': [ep.ev_repr(e) for e in evs], 'opts': opts, 'why': why[:500]})
+        if len(out['samples']) < 1 and final and len(hist) >= 6:
+            out['samples'].append({'events': [e['k'] for e in hist], 'text': ep.text_of(m['w']['out'])})
+    return out
+
+
+def run_emitter(v, tier, fix, acc):
+    trail = set()
+    for name in ETIERS[tier]:
+        if os.environ.get('C05_DEV') and name not in os.environ['C05_DEV'].split(','):
+            continue
+        conf = dict(ECONF[name], Fix=fix)
+        r = tlc.run('MC_Emitter', cfg='MC_Emitter.cfg', dump=True, tag='C05_emit_' + name, timeout=3000, coverage=False,
+                    constants={k: (x if isinstance(x, str) else tla(x)) for k, x in conf.items()})
+        if r.violated:
+            print(r.out[-3000:])
+            raise SystemExit('machinery failure: Emitter.tla violates %s in configuration %s (undiagnosed L => H failure)'
+                             % (r.violated, name))
+        tlc.require_ok(r, 'MC_Emitter/' + name)
+        acc['states'] += r.distinct
+        acc['trans'] += r.generated
+        n, outs, names = ep.pmap_raw(emit_work, r.dump, {'seed': SEED * 104729 + len(name), 'sample': 0.01, 'alt': 0.5}, KEEP)
+        os.remove(r.dump)
+        if n != r.distinct:
+            raise SystemExit('machinery failure: dump has %d states, TLC found %d' % (n, r.distinct))
+        traces = [t for o in outs for t in o['traces']]
+        meta = [m for o in outs for m in o['meta']]
+        verdicts, s2 = trace.judge('Trace_EmitParse', traces, 'C05_emit_' + name)
+        acc['states'] += s2
+        acc['pairs'] += sum(o['pairs'] for o in outs)
+        acc['judged'] += len(traces)
+        acc['same'] += sum(o['same'] for o in outs)
+        acc['streams'] += sum(o['finals'] for o in outs)
+        cxs = set()
+        trail |= names
+        for o in outs:
+            cxs |= o['cxs']
+            acc['samples'] += o['samples'][:1]
+            for k, c in o['outcomes'].items():
+                acc['outcomes'][k] = acc['outcomes'].get(k, 0) + c
+            for k, c in o['sites'].items():
+                acc['lbad'][k] = acc['lbad'].get(k, 0) + c
+        acc['emitter_scalar_contexts'] = acc.get('emitter_scalar_contexts', 0) + len(cxs)
+        nd = sum(o['ndrift'] for o in outs)
+        if nd:
+            ex = [d for o in outs for d in o['drift']][:2]
+            v.note('spec-drift C05/emitter/%s: %d streams where the Python emitter/parser differ from Emitter.tla/EmitRead.tla, '
+                   'e.g. %s' % (name, nd, json.dumps(ex)[:1200]))
+        for m, t, (ok, why, at) in zip(meta, traces, verdicts):
+            if not ok:
+                clause, _, defect = why.partition(':')
+                sty = '-'
+                if clause == 'value':
+                    nsc = sum(1 for e in t['eout'][:at] if e['k'] == 'Scalar')
+                    sty = m['styles'][nsc - 1] if 0 < nsc <= len(m['styles']) else '-'
+                v.violation({'emitter': m['emitter'], 'parser': m['parser'], 'clause': clause, 'defect': defect or clause,
+                             'style': sty, 'site': m['site'], 'wellformed': bool(t['wf']), 'part': 'emitter'},
+                            dict(m, config=name, outcome=t['outcome'], at_event=at))
+    missing = METHODS - trail
+    if missing and not os.environ.get('C05_DEV'):
+        raise SystemExit('machinery failure: emitter methods never executed in the model: %s' % sorted(missing))
+    acc['methods_fired'] = len(trail & METHODS)
+
+
 def main(tier, replay=None):
     v = Verdict('C05', tier)
     yaml = use_repo()
     fix = calibrate(yaml)
     acc = {'states': 0, 'trans': 0, 'pairs': 0, 'judged': 0, 'same': 0, 'folds': 0, 'samples': [], 'styles': {}, 'lbad': {}}
-    run_scalars(v, tier, fix, acc)
+    acc.update(streams=0, outcomes={})
+    if os.environ.get('C05_PARTS', 'ABC').find('A') >= 0:
+        run_scalars(v, tier, fix, acc)
+    if os.environ.get('C05_PARTS', 'ABC').find('B') >= 0:
+        run_emitter(v, tier, fix, acc)
     v.cov = {'states': acc['states'], 'transitions': acc['trans'], 'traces_validated_against_impl': acc['pairs'],
              'pairs_judged_by_tlc': acc['judged'], 'pairs_identical_on_all_compared_fields': acc['same'],
-             'scalar_styles_replayed': acc['styles'], 'model_diagnosed_defect_sites': acc['lbad'],
+             'scalar_styles_replayed': acc['styles'], 'model_diagnosed_defect_sites': acc['lbad'], 'event_streams_replayed': acc['streams'],
+             'model_outcomes': acc['outcomes'], 'emitter_methods_fired': acc.get('methods_fired'),
+             'emitter_scalar_contexts': acc.get('emitter_scalar_contexts'),
              'model_outputs_with_a_fold_or_break': acc['folds'], 'L_variant_repairs_detected_in_tree': fix,
              'exhaustive': True, 'samples': acc['samples'][:6],
              'configs': {n: SCONF[n] for n in STIERS[tier]}}
